@@ -99,6 +99,19 @@ CHECKS = {
                      "a mismatch in a run with a decompressor restart (T3) while the coded body arrived in more than one piece is attributed to the known finding D7; one-piece runs are never attributed",
                      "trailing bytes after the end of the compressed stream are not generated (not covered by the statement)"],
     ),
+    "C08": dict(
+        bins=["c08"], replay_bin="c08", campaigns=lambda tier, seed: [dict(name="c08", bin="c08", shards=16, timeout=3000)], level="exploration",
+        rule=("pump patterns prefix(state) + unit^k + suffix over 44 (parser state, unit) pairs on both directions (header lines with the same / distinct / empty / missing names, folded "
+              "lines, whitespace, NUL bytes, empty lines before a message, request-line and status-line whitespace, percent escapes, dot segments, query / cookie / urlencoded / "
+              "digest parameters, chunks, chunk-size leading zeros / extensions / whitespace+digits / empty lines, trailers, multipart parts / part headers / data lines / "
+              "near-boundary lines, pipelined requests, HTTP/0.9 junk, Content-Encoding token lists, interim 100 responses, bodies without status line) x generated unit "
+              "parameters x delivery {one chunk, 1 byte, 7 bytes, 1460 bytes per call} x 10 personalities; k on a doubling ladder 64..4096 (thorough ..16384). Work = executed "
+              "basic blocks of libhtp + in-tree LZMA (trace-pc-guard callbacks) inside data calls and close: deterministic. Verdict: marginal work per added byte grows >= 1.6x "
+              "on each of the last two doublings. Every shard first walks its slice of the pattern table, so each pattern is measured on every run; the rest is sampled. "
+              "Non-trivial = ladder whose top rung costs >= 20x the bottom rung (the unit really was parsed k times); one evaluation = one rung"),
+        assumptions=["libc (memcpy/realloc) and zlib are outside the meter", "teardown (destroying a connection holding many transactions) is not metered: outside the listed constructs",
+                     "the maximum work per byte seen by the coverage-guided fuzzer (quantifier text) is not measured: fuzz_stream is not built against the cost variant (stated in DESIGN.md)"],
+    ),
     "C09": dict(
         bins=["fuzz_stream", "sreplay"], replay_bin="sreplay", replay_args=["--monitor", "C09"], campaigns=_fuzz("C09", ""), level="exploration",
         prepare="seeds",
